@@ -565,8 +565,8 @@ func graphPools(thorough bool) []Pool {
 }
 
 func describe(r *ev.Run) {
-	r.Rule("E1: BFS to fixpoint over the real allocator for each pool; ops = Allocate(no hint | hint on every block in several forms | hints outside) + Free (outstanding blocks; for C06 also every non-outstanding block, sub-prefixes, and prefixes 1,2,N,N+1,2^16 blocks below/above the pool). State key = bitmap bits (hook) + ghost set of outstanding blocks. Reference geometry from math/big. Then linear sweeps (fill to exhaustion, free one, refill) over pool geometries incl. word-boundary sizes. Class = op kind + outcome.")
-	r.Assume("pool orders <= 16 blocks in the graphs, <= 257 blocks in sweeps; super-prefix frees and mismatched IP/mask widths are outside the stated domain of Free; the exploration runs in a worker process so that a fatal error of the allocator is reported, not suffered")
+	r.Rule("E1: BFS to fixpoint over the real allocator for each pool; ops = Allocate(no hint | hint on every block in several forms | hints outside) + Free (outstanding blocks; for C06 also every non-outstanding block, sub-prefixes, and prefixes 1,2,N,N+1,2^16 blocks below/above the pool). State key = bitmap bits (hook) + ghost set of outstanding blocks. Reference geometry from math/big. Then sweeps: fill to exhaustion / free one / refill over pool geometries incl. word-boundary sizes; big fills (2^17 blocks, 70 000 addresses); a 2^21-block pool whose first 2^16 / 2^20 blocks are taken by hint; far hints on pools of 2^25..2^33 blocks; free-each-after-fill on 65..257 (1024) blocks; Free of every non-outstanding block of 257/1024-block pools; free-then-hint after 5000 (70 000) allocations. C04/C05/C06 additionally: 2-3 threads of 1-2 operations under all schedules up to the preemption bound (serial-order oracle + porcupine). Class = op kind + outcome.")
+	r.Assume("pool orders <= 16 blocks in the graphs; the sweeps probe selected blocks of the large pools, not all of them; super-prefix frees and mismatched IP/mask widths are outside the stated domain of Free; the exploration runs in a worker process so that a fatal error of the allocator is reported, not suffered")
 }
 
 func run(r *ev.Run, id string) {
